@@ -149,6 +149,17 @@ Theorem C18_server_set_get : forall s u c s' v,
 Proof. exact sv_set_then_get. Qed.
 Print Assumptions C18_server_set_get.
 
+(* --- defaults: no zero_mode keyword = one-based addressing; default tables hold 0..65535 ---- *)
+
+Theorem C18_default_one_based : default_zero_mode code = false.
+Proof. exact default_is_one_based. Qed.
+Print Assumptions C18_default_one_based.
+
+Theorem C18_default_block_extent : forall k,
+  blk_validate code (default_block code) k 1 = true <-> 0 <= k < 65536.
+Proof. exact default_block_extent. Qed.
+Print Assumptions C18_default_block_extent.
+
 (* --- all histories: refinement to the abstract map ----------------------------------------
    For every block whose key set has no duplicates (always true of a Python dict; automatic for
    sequential blocks) and EVERY sequence of validate/get/set/reset/iterate operations, the model's
